@@ -119,39 +119,139 @@ def valid_elements_chain(ctx: Ctx):
     dim = ctx.repo.cls("dimension.py", "Dimension")
     e = expand(ctx.repo, dim, "valid_elements", stop=lambda m: True)
     ctx.check_expr("valid-elements", "dimension.py::Dimension.valid_elements", e, "self.all_elements.valid_elements")
-    # Elements.from_typedef: Element(..., idx, ...) where idx enumerates element_defs AFTER the `order` remap
+    element_index_provenance(ctx)
+
+
+# positional provenance in Elements.from_typedef -------------------------------------------------
+class _Seq:
+    def __init__(self, ver):
+        self.ver = ver
+
+
+class _Pairs:
+    def __init__(self, order_ver, idx_ver):
+        self.order_ver, self.idx_ver = order_ver, idx_ver
+
+
+class _Map:
+    def __init__(self, idx_ver=None):
+        self.idx_ver = idx_ver  # None: id -> element ; else id -> (idx, element) with idx of that version
+
+
+class _Unknown(Exception):
+    pass
+
+
+def _prov_eval(e: ast.expr, env, fresh):
+    """Abstract value of an expression over tracked sequences (None = untracked)."""
+    if isinstance(e, ast.Name):
+        return env.get(e.id)
+    if isinstance(e, ast.IfExp):
+        a, b = _prov_eval(e.body, env, fresh), _prov_eval(e.orelse, env, fresh)
+        if isinstance(a, _Seq) or isinstance(b, _Seq):
+            return _Seq(0)
+        return None
+    if isinstance(e, ast.Subscript) and u(e.value) == "typedef":
+        return _Seq(0)
+    if isinstance(e, ast.Call) and isinstance(e.func, ast.Name) and e.func.id in ("list", "tuple") and len(e.args) == 1:
+        return _prov_eval(e.args[0], env, fresh)
+    if isinstance(e, ast.Call) and isinstance(e.func, ast.Name) and e.func.id == "enumerate" and e.args:
+        s = _prov_eval(e.args[0], env, fresh)
+        if isinstance(s, _Seq):
+            return _Pairs(s.ver, s.ver)
+        if s is None:
+            return None
+        raise _Unknown("enumerate of " + type(s).__name__)
+    if isinstance(e, ast.DictComp) and len(e.generators) == 1:
+        it = _prov_eval(e.generators[0].iter, env, fresh)
+        if isinstance(it, _Seq):
+            return _Map(None)
+        if isinstance(it, _Pairs):
+            # value (idx, edef) or edef ?
+            if isinstance(e.value, ast.Tuple):
+                return _Map(it.idx_ver)
+            return _Map(None)
+        return None
+    if isinstance(e, ast.ListComp) and len(e.generators) == 1:
+        g = e.generators[0]
+        it = _prov_eval(g.iter, env, fresh)
+        # [codemap[code] for code in order if ...]  -> a re-arrangement: new order version
+        if isinstance(e.elt, ast.Subscript) and isinstance(e.elt.value, ast.Name) and isinstance(env.get(e.elt.value.id), _Map):
+            m = env[e.elt.value.id]
+            v = fresh()
+            return _Seq(v) if m.idx_ver is None else _Pairs(v, m.idx_ver)
+        if isinstance(it, _Pairs):
+            # [edef for _, edef in pairs] keeps the order
+            if isinstance(e.elt, ast.Name):
+                return _Seq(it.order_ver)
+            if isinstance(e.elt, ast.Tuple):
+                return _Pairs(it.order_ver, it.idx_ver)
+        if isinstance(it, _Seq):
+            return _Seq(it.ver) if isinstance(e.elt, ast.Name) else None
+        return None
+    return None
+
+
+def element_index_provenance(ctx: Ctx):
+    """Element(element_dict, idx, ...): idx must be the position of the element in the sequence the Elements
+    tuple is built from, on every path (with and without a typedef `order`)."""
+    els = ctx.repo.cls("dimension.py", "Elements")
     m = ctx.repo.lookup(els, "from_typedef")
     if m is None:
         raise AnalysisError("Elements.from_typedef vanished")
-    stmts = m.node.body
-    remap_at = loop_at = None
-    loop_var = iter_name = None
-    elem_idx_arg = None
-    for i, st in enumerate(stmts):
-        if isinstance(st, ast.If) and any(
-            isinstance(n, ast.Assign) and any(isinstance(t, ast.Name) and t.id == "element_defs" for t in n.targets) for n in ast.walk(st)
-        ):
-            remap_at = i
-        if isinstance(st, ast.For) and isinstance(st.iter, ast.Call) and u(st.iter.func) == "enumerate":
-            for n in ast.walk(st):
-                if isinstance(n, ast.Call) and isinstance(n.func, ast.Name) and n.func.id == "Element" and len(n.args) >= 2:
-                    loop_at = i
-                    iter_name = u(st.iter.args[0])
-                    if isinstance(st.target, ast.Tuple) and isinstance(st.target.elts[0], ast.Name):
-                        loop_var = st.target.elts[0].id
-                    elem_idx_arg = u(n.args[1])
     where = "dimension.py::Elements.from_typedef"
-    if loop_at is None or remap_at is None:
-        ctx.undecided("element-index", where, "enumerate loop constructing Element(...) or the order remap not found", "Element index = position after the order remap")
-    else:
-        ok = remap_at < loop_at and iter_name == "element_defs" and elem_idx_arg == loop_var
-        ctx.ob(
-            "element-index",
-            where,
-            f"remap stmt #{remap_at}, loop stmt #{loop_at} over {iter_name}, Element index arg = {elem_idx_arg} (loop var {loop_var})",
-            "Element.index is the enumeration position in element_defs AFTER the typedef `order` re-arrangement (the data along the axis is in that order)",
-            ok,
-        )
+    counter = [0]
+
+    def fresh():
+        counter[0] += 1
+        return counter[0]
+
+    results = []
+
+    def run(stmts, env):
+        for i, st in enumerate(stmts):
+            if isinstance(st, ast.Assign) and len(st.targets) == 1 and isinstance(st.targets[0], ast.Name):
+                v = _prov_eval(st.value, env, fresh)
+                if v is not None or st.targets[0].id in env:
+                    env[st.targets[0].id] = v
+            elif isinstance(st, ast.If):
+                tracked = {n.id for n in ast.walk(st) if isinstance(n, ast.Name) and isinstance(n.ctx, ast.Store)} & (set(env) | {"element_defs"})
+                if tracked or any(isinstance(x, ast.For) for x in ast.walk(st)):
+                    e1, e2 = dict(env), dict(env)
+                    run(list(st.body) + list(stmts[i + 1:]), e1)
+                    run(list(st.orelse) + list(stmts[i + 1:]), e2)
+                    return
+            elif isinstance(st, ast.For):
+                it = _prov_eval(st.iter, env, fresh)
+                ctor = [n for n in ast.walk(st) if isinstance(n, ast.Call) and isinstance(n.func, ast.Name) and n.func.id == "Element" and len(n.args) >= 2]
+                if not ctor:
+                    continue
+                if not isinstance(it, _Pairs) or not isinstance(st.target, ast.Tuple) or len(st.target.elts) != 2:
+                    raise _Unknown("loop constructing Element(...) does not iterate (idx, element) pairs: " + u(st.iter))
+                idx_name = st.target.elts[0].id if isinstance(st.target.elts[0], ast.Name) else None
+                el_name = st.target.elts[1].id if isinstance(st.target.elts[1], ast.Name) else None
+                for c in ctor:
+                    if u(c.args[0]) != el_name or u(c.args[1]) != idx_name:
+                        raise _Unknown("Element(...) arguments are not the loop variables")
+                results.append((it.order_ver, it.idx_ver))
+
+    try:
+        run(list(m.node.body), {})
+    except _Unknown as ex:
+        ctx.undecided("element-index", where, f"positional provenance: {ex}", "Element.index = position in the final element sequence")
+        return
+    if not results:
+        ctx.undecided("element-index", where, "no Element(...) construction loop found", "Element.index = position in the final element sequence")
+        return
+    bad = [r for r in results if r[0] != r[1]]
+    ctx.ob(
+        "element-index",
+        where,
+        [f"sequence version {o}, index version {i}" for o, i in results],
+        "on every path the index passed to Element(...) enumerates the SAME arrangement the elements are emitted in (after the typedef `order` re-arrangement, because the data along the axis is in that order)",
+        not bad and len(results) >= 2,
+        "an index taken before the re-arrangement pairs each label with another element's data plane",
+    )
 
 
 # --------------------------------------------------------------------------- 2
